@@ -148,6 +148,8 @@ pub fn run_meta_check(id: &str, tier: &str, seed: u64) -> i32 {
     };
     if id == "C17" {
         minimise_all(&mut acc, |v| sa_meta::minimise_c17(v));
+    } else {
+        minimise_all(&mut acc, |v| sa_meta::minimise_c16(v));
     }
     let (rule, level) = match id {
         "C17" => ("per run one timing-free base script (handshake, 1-2 games, zero-slice go commands, isready probes, quit); (ignore) a noisy twin with unknown/empty/blank/4 kB/non-ASCII lines inserted anywhere after the handshake, ASCII-whitespace variants (blanks, tabs, VT, FF, CRLF) of valid commands and unknown tokens inside go must give the same transcript and the same probed board/record after each command; (lifecycle) stdin is closed at EVERY command boundary of the script (enumerated, exhaustive per script) and at two sampled mid-line offsets, and the process must end. An evaluation is one simulated session. Non-trivial: distinct noisy scripts with >= 1 noise item plus distinct (script prefix, EOF boundary) pairs.", "fault_enumeration"),
@@ -401,7 +403,12 @@ pub fn replay_file(path: &str) -> i32 {
                     "C18" => j.c18 = true,
                     _ => j.c09 = true,
                 }
-                sa_checks::replay(sc, j).0
+                let (acc, hash) = sa_checks::replay(sc, j);
+                if let Some(want) = sc["log_hash"].as_str() {
+                    let got = format!("{:016x}", hash);
+                    std::println!("event-log hash: recorded {} replayed {} ({})", want, got, if want == got { "identical execution" } else { "DIFFERENT execution" });
+                }
+                acc
             }
         },
         "C15" => {
